@@ -2572,3 +2572,159 @@ Section ElimOpThms.
     split; [apply elimop_lang; assumption|apply elimop_no_eps; assumption].
   Qed.
 End ElimOpThms.
+
+(* ------------------------------------------------------------------ *)
+(* compositions *)
+Lemma asm_rows_keyed {X} (enc : X -> nat) xs syms rowof x0 fin :
+  rows_keyed (assemble enc xs syms rowof x0 fin) = true.
+Proof.
+  unfold rows_keyed, assemble. simpl. apply forallb_forall. intros [k r] Hin. simpl.
+  apply in_flat_map in Hin. destruct Hin as [x [Hx Hin]]. destruct (rowof x); [|destruct Hin].
+  destruct Hin as [Hin|[]]. injection Hin as <- _. apply memb_In. apply in_map. exact Hx.
+Qed.
+
+Section Keyed.
+  Variables A B : nfa.
+  Lemma union_keyed R : nfa_union A B = Ok R -> rows_keyed R = true.
+  Proof.
+    unfold nfa_union. destruct (lookups_ok A && lookups_ok B); [|discriminate]. intro H.
+    apply check_nfa_inv in H. destruct H as [-> _]. apply asm_rows_keyed.
+  Qed.
+  Lemma concat_keyed R : nfa_concat A B = Ok R -> rows_keyed R = true.
+  Proof.
+    unfold nfa_concat. destruct (lookups_ok A && lookups_ok B); [|discriminate]. intro H.
+    apply check_nfa_inv in H. destruct H as [-> _]. apply asm_rows_keyed.
+  Qed.
+  Lemma star_keyed R : nfa_star A = Ok R -> rows_keyed R = true.
+  Proof. intro H. apply check_nfa_inv in H. destruct H as [-> _]. apply asm_rows_keyed. Qed.
+  Lemma option_keyed R : nfa_option A = Ok R -> rows_keyed R = true.
+  Proof. intro H. apply check_nfa_inv in H. destruct H as [-> _]. apply asm_rows_keyed. Qed.
+  Lemma reverse_keyed R : nfa_reverse A = Ok R -> rows_keyed R = true.
+  Proof.
+    unfold nfa_reverse. destruct (rows_keyed A); [|discriminate]. intro H.
+    apply check_nfa_inv in H. destruct H as [-> _]. apply asm_rows_keyed.
+  Qed.
+  Lemma inter_keyed R : nfa_intersection A B = Ok R -> rows_keyed R = true.
+  Proof.
+    unfold nfa_intersection. destruct (inter_states A B); [|discriminate]. intro H.
+    apply check_nfa_inv in H. destruct H as [-> _]. apply asm_rows_keyed.
+  Qed.
+  Lemma shuffle_keyed R : nfa_shuffle A B = Ok R -> rows_keyed R = true.
+  Proof. intro H. apply check_nfa_inv in H. destruct H as [-> _]. apply asm_rows_keyed. Qed.
+  Lemma rquot_keyed R : nfa_right_quotient A B = Ok R -> rows_keyed R = true.
+  Proof.
+    unfold nfa_right_quotient. destruct (elim_parts A); [|discriminate]. destruct (elim_parts B); [|discriminate].
+    simpl. intro H. apply check_nfa_inv in H. destruct H as [-> _]. apply asm_rows_keyed.
+  Qed.
+  Lemma lquot_keyed R : nfa_left_quotient A B = Ok R -> rows_keyed R = true.
+  Proof.
+    unfold nfa_left_quotient. destruct (elim_parts A); [|discriminate]. destruct (elim_parts B); [|discriminate].
+    simpl. intro H. apply check_nfa_inv in H. destruct H as [-> _]. apply asm_rows_keyed.
+  Qed.
+End Keyed.
+
+(* the language operations respect language equality *)
+Section LangExt.
+  Variables A A' B B' : lang.
+  Hypothesis HA : A =L A'.
+  Hypothesis HB : B =L B'.
+
+  Lemma l_union_ext : l_union A B =L l_union A' B'.
+  Proof. intro w. unfold l_union. rewrite (HA w), (HB w). tauto. Qed.
+  Lemma l_inter_ext : l_inter A B =L l_inter A' B'.
+  Proof. intro w. unfold l_inter. rewrite (HA w), (HB w). tauto. Qed.
+  Lemma l_cat_ext : l_cat A B =L l_cat A' B'.
+  Proof.
+    intro w. unfold l_cat. split; intros [u [v [E [H1 H2]]]]; exists u, v; (split; [exact E|]);
+      (split; [apply HA; exact H1|apply HB; exact H2]).
+  Qed.
+  Lemma l_star_ext : l_star A =L l_star A'.
+  Proof.
+    intro w. split; intro H; induction H as [|u v Hu Hv IH]; try apply star_nil;
+      (apply star_app; [apply HA; exact Hu|exact IH]).
+  Qed.
+  Lemma l_opt_ext : l_opt A =L l_opt A'.
+  Proof. intro w. unfold l_opt. rewrite (HA w). tauto. Qed.
+  Lemma l_rev_ext : l_rev A =L l_rev A'.
+  Proof. intro w. unfold l_rev. apply HA. Qed.
+  Lemma l_shuffle_ext : l_shuffle A B =L l_shuffle A' B'.
+  Proof.
+    intro w. unfold l_shuffle. split; intros [u [v [H1 [H2 H3]]]]; exists u, v;
+      (split; [apply HA; exact H1|]); (split; [apply HB; exact H2|exact H3]).
+  Qed.
+  Lemma l_rquot_ext : l_rquot A B =L l_rquot A' B'.
+  Proof.
+    intro w. unfold l_rquot. split; intros [v [H1 H2]]; exists v; (split; [apply HB; exact H1|apply HA; exact H2]).
+  Qed.
+  Lemma l_lquot_ext : l_lquot A B =L l_lquot A' B'.
+  Proof.
+    intro w. unfold l_lquot. split; intros [v [H1 H2]]; exists v; (split; [apply HB; exact H1|apply HA; exact H2]).
+  Qed.
+End LangExt.
+
+Fixpoint nexp_den (e : nexp) : lang :=
+  match e with
+  | NLeaf A => L_nfa A
+  | NUnion e f => l_union (nexp_den e) (nexp_den f)
+  | NConcat e f => l_cat (nexp_den e) (nexp_den f)
+  | NStar e => l_star (nexp_den e)
+  | NOption e => l_opt (nexp_den e)
+  | NReverse e => l_rev (nexp_den e)
+  | NInter e f => l_inter (nexp_den e) (nexp_den f)
+  | NShuffle e f => l_shuffle (nexp_den e) (nexp_den f)
+  | NRQuot e f => l_rquot (nexp_den e) (nexp_den f)
+  | NLQuot e f => l_lquot (nexp_den e) (nexp_den f)
+  end.
+
+Definition eval_good (e : nexp) : Prop :=
+  exists R, nfa_eval e = Ok R /\ valid_nfa R = true /\ rows_keyed R = true /\ L_nfa R =L nexp_den e.
+
+Theorem ops_compose e : nexp_leaves_ok e = true -> eval_good e.
+Proof.
+  induction e as [A|e IHe f IHf|e IHe f IHf|e IHe|e IHe|e IHe|e IHe f IHf|e IHe f IHf|e IHe f IHf|e IHe f IHf];
+    simpl; intro Hok; unfold eval_good; simpl.
+  - apply andb_true_iff in Hok. destruct Hok as [Hv Hk]. exists A. split; [reflexivity|]. split; [exact Hv|].
+    split; [exact Hk|apply lang_eq_refl].
+  - apply andb_true_iff in Hok. destruct Hok as [H1 H2].
+    destruct (IHe H1) as [a [Ea [Va [Ka La]]]]. destruct (IHf H2) as [b [Eb [Vb [Kb Lb]]]].
+    destruct (ops_union_total a b Va Vb Ka Kb) as [R [ER VR]]. exists R. unfold bind2. rewrite Ea, Eb. simpl.
+    split; [exact ER|]. split; [exact VR|]. split; [eapply union_keyed; exact ER|].
+    eapply lang_eq_trans; [apply (ops_union_lang a b Va Vb R ER)|apply l_union_ext; assumption].
+  - apply andb_true_iff in Hok. destruct Hok as [H1 H2].
+    destruct (IHe H1) as [a [Ea [Va [Ka La]]]]. destruct (IHf H2) as [b [Eb [Vb [Kb Lb]]]].
+    destruct (ops_concat_total a b Va Vb Ka Kb) as [R [ER VR]]. exists R. unfold bind2. rewrite Ea, Eb. simpl.
+    split; [exact ER|]. split; [exact VR|]. split; [eapply concat_keyed; exact ER|].
+    eapply lang_eq_trans; [apply (ops_concat_lang a b Va Vb R ER)|apply l_cat_ext; assumption].
+  - destruct (IHe Hok) as [a [Ea [Va [Ka La]]]].
+    destruct (ops_star_total a Va) as [R [ER VR]]. exists R. rewrite Ea. simpl.
+    split; [exact ER|]. split; [exact VR|]. split; [eapply star_keyed; exact ER|].
+    eapply lang_eq_trans; [apply (ops_star_lang a Va R ER)|apply l_star_ext; assumption].
+  - destruct (IHe Hok) as [a [Ea [Va [Ka La]]]].
+    destruct (ops_option_total a Va) as [R [ER VR]]. exists R. rewrite Ea. simpl.
+    split; [exact ER|]. split; [exact VR|]. split; [eapply option_keyed; exact ER|].
+    eapply lang_eq_trans; [apply (ops_option_lang a Va R ER)|apply l_opt_ext; assumption].
+  - destruct (IHe Hok) as [a [Ea [Va [Ka La]]]].
+    destruct (ops_reverse_total a Va Ka) as [R [ER VR]]. exists R. rewrite Ea. simpl.
+    split; [exact ER|]. split; [exact VR|]. split; [eapply reverse_keyed; exact ER|].
+    eapply lang_eq_trans; [apply (ops_reverse_lang a Va R ER)|apply l_rev_ext; assumption].
+  - apply andb_true_iff in Hok. destruct Hok as [H1 H2].
+    destruct (IHe H1) as [a [Ea [Va [Ka La]]]]. destruct (IHf H2) as [b [Eb [Vb [Kb Lb]]]].
+    destruct (ops_inter_total a b Va Vb) as [R [ER VR]]. exists R. unfold bind2. rewrite Ea, Eb. simpl.
+    split; [exact ER|]. split; [exact VR|]. split; [eapply inter_keyed; exact ER|].
+    eapply lang_eq_trans; [apply (ops_inter_lang a b Va R ER)|apply l_inter_ext; assumption].
+  - apply andb_true_iff in Hok. destruct Hok as [H1 H2].
+    destruct (IHe H1) as [a [Ea [Va [Ka La]]]]. destruct (IHf H2) as [b [Eb [Vb [Kb Lb]]]].
+    destruct (ops_shuffle_total a b Va Vb) as [R [ER VR]]. exists R. unfold bind2. rewrite Ea, Eb. simpl.
+    split; [exact ER|]. split; [exact VR|]. split; [eapply shuffle_keyed; exact ER|].
+    eapply lang_eq_trans; [apply (ops_shuffle_lang a b Va Vb R ER)|apply l_shuffle_ext; assumption].
+  - apply andb_true_iff in Hok. destruct Hok as [H1 H2].
+    destruct (IHe H1) as [a [Ea [Va [Ka La]]]]. destruct (IHf H2) as [b [Eb [Vb [Kb Lb]]]].
+    destruct (ops_rquot_total a b Va Vb) as [R [ER VR]]. exists R. unfold bind2. rewrite Ea, Eb. simpl.
+    split; [exact ER|]. split; [exact VR|]. split; [eapply rquot_keyed; exact ER|].
+    eapply lang_eq_trans; [apply (ops_rquot_lang a b Va Vb R ER)|apply l_rquot_ext; assumption].
+  - apply andb_true_iff in Hok. destruct Hok as [H1 H2].
+    destruct (IHe H1) as [a [Ea [Va [Ka La]]]]. destruct (IHf H2) as [b [Eb [Vb [Kb Lb]]]].
+    destruct (ops_lquot_total a b Va Vb) as [R [ER VR]]. exists R. unfold bind2. rewrite Ea, Eb. simpl.
+    split; [exact ER|]. split; [exact VR|]. split; [eapply lquot_keyed; exact ER|].
+    eapply lang_eq_trans; [apply (ops_lquot_lang a b Va Vb R ER)|apply l_lquot_ext; assumption].
+Qed.
